@@ -62,6 +62,7 @@ def case_strategy(draw):
         "genotype": genotype, "indices": idx, "interval": interval, "haplotypes": haps, "alleles": alleles,
         "n_pad": n_pad, "hperm": hperm, "rperm": rperm, "py_func": draw(st.integers(0, 3)) == 0,
         "zero_count": [draw(st.integers(0, 5)) == 0 for _ in reads] if draw(st.booleans()) else None,
+        "float32": draw(st.integers(0, 4)) == 0,
     }
 
 
@@ -87,6 +88,10 @@ def check_case(ctx, case):
     genotype = case["genotype"]
     ploidy = len(genotype)
     R_arr = G.reads_array(reads, n_base, max_allele)
+    if case.get("float32"):
+        # single-precision tensor: the reference is evaluated on exactly the same (rounded) probabilities
+        R_arr = R_arr.astype(np.float32)
+        reads = [[[None if v != v else float(v) for v in cell] for cell in read] for read in R_arr.tolist()]
     C_arr = G.counts_array(counts, len(reads))
     g_arr = np.array(genotype, dtype=np.int8).reshape(ploidy, n_base)
     idx = np.array(case["indices"], dtype=np.int64)
@@ -104,6 +109,8 @@ def check_case(ctx, case):
         classes.append("weighted")
     if has_zero_count:
         classes.append("zero_count_read")
+    if case.get("float32"):
+        classes.append("float32_tensor")
     if nonid:
         classes.append("nonidentity_rearrangement")
     if inside:
